@@ -127,6 +127,7 @@ func engineLA(w *World, tier string) *EngineResult {
 	r.Stats["retained_addresses_in_loops"] = n
 	r.floor("retained_addresses_in_loops", 3)
 	laMaps(w, r)
+	laCopy(w, r)
 	r.finish()
 	return r
 }
